@@ -78,7 +78,7 @@ STRENGTHENED = {
     "C09-8": "reported by C06 (`disp` on the own grid raises / is axis-reversed for stride > 1, resize=False on non-square grids), "
              "not by C09",
     "C10-8": "first reported only by C01 (`vectors:grid->cube` on a grid with fractional stored size); the C10 `repr` and "
-             "`world_affine` oracles now also draw pyramid levels of odd-sized grids",
+             "`world_affine` oracles now also draw pyramid levels of odd-sized grids and report it too",
     "C18-8": "same change as C02-8 (origin setter on one-sample axes); reported by C18 (`convert_back:memory:origin`) and C02",
     "C20-8": "missed; new oracle operations `losses.<fn>[norm=scalar0d | scalar1 | recipe]` (the normalisation factor as a learnable "
              "tensor, and as the documented max_difference(source, target)^2 of the optimised images)",
